@@ -48,9 +48,10 @@ def _bool_eval(node, env):
 
 def r1(run: Run, src):
     p = src.cls('Parser')
-    fi = p.methods.get('_translate')
-    if fi is None:
+    if p.methods.get('_translate') is None:
         raise AnalysisError('C09.R1', 'Parser._translate not found')
+    from .common import inlined_function
+    fi = inlined_function(src, 'Parser._translate')      # helpers of the facade (flag tests, flag resets, ...) analysed in place
     fn = fi.node
     body = [s for s in fn.body if not (isinstance(s, ast.Expr) and isinstance(s.value, ast.Constant))]
     loc = loc_of(fi.module.path, fn)
@@ -245,7 +246,8 @@ def r3_r4(run: Run, src, cg):
     if n < 100:
         raise AnalysisError('C09.R3', f'only {n} functions are reachable from _translate (call graph resolution broke?)')
     # a fresh Context per translation, never stored globally
-    tr = entry.node
+    from .common import inlined_function
+    tr = inlined_function(src, 'Parser._translate').node
     ctxs = [s for s in ast.walk(tr) if isinstance(s, ast.Assign) and isinstance(s.value, ast.Call) and
             isinstance(s.value.func, ast.Name) and s.value.func.id == 'Context']
     run.check(len(ctxs) == 1 and isinstance(ctxs[0].targets[0], ast.Name) and not ctxs[0].value.args, 'C09.R4',
